@@ -148,3 +148,59 @@ fn c10_entries_match_the_byte_classes() {
     }
     println!("CASES c10_classes {cases}");
 }
+
+/// outcome of running the VM in strict mode: (error payload names, stored states, per-offset visit totals), None on a panic
+fn vm_outcome(code: &[u8]) -> Option<(Vec<String>, usize, Vec<usize>)> {
+    use storage_layout_extractor::{vm::{Config, VM}, watchdog::LazyWatchdog};
+    let c = code.to_vec();
+    catch_unwind(move || {
+        let is = InstructionStream::try_from(c.as_slice()).ok()?;
+        let mut vm = VM::new(is, Config::default(), LazyWatchdog.in_rc()).ok()?;
+        let errs = match vm.execute() { Ok(()) => vec![], Err(e) => e.payloads().iter().map(|x| format!("{:?}", x.payload).chars().take(60).collect()).collect() };
+        let res = vm.consume();
+        let visits = (0..c.len() as u32).map(|ip| res.states.iter().map(|st| st.visited_instructions().visit_count(ip).unwrap_or(0)).sum()).collect();
+        Some((errs, res.states.len(), visits))
+    }).ok().flatten()
+}
+
+/// "bytes with no assigned opcode behave as INVALID" and "a PUSH cut short ... is tolerated": executing such a byte must be
+/// indistinguishable (errors, collected states, executed offsets) from executing 0xfe at the same place.
+#[test]
+fn c10_unassigned_bytes_and_cut_pushes_execute_as_invalid() {
+    std::panic::set_hook(Box::new(|_| {}));
+    let mut assigned: Vec<u8> = crate::c07_diff::evm_arity().into_iter().map(|t| t.0).collect();
+    assigned.extend([0x00, 0x56, 0x57, 0xf3, 0xfd, 0xfe, 0xff]);
+    let mut cases = 0;
+    let mut cmp = |what: String, code: Vec<u8>, reference: Vec<u8>| {
+        cases += 1;
+        let (got, want) = (vm_outcome(&code), vm_outcome(&reference));
+        if got != want {
+            witness("C10", "dis.unassigned_byte_behaves_as_invalid", format!("{what}: {code:02x?}"), format!("(errors, states, visits) = {got:?}"), format!("as with INVALID in its place: {want:?}"));
+        }
+    };
+    for b in 0..=255u8 {
+        if assigned.contains(&b) { continue; }
+        for prefix in [vec![], vec![0x5b], vec![0x60, 0x01, 0x50]] {
+            let tail = [0x60u8, 0x01, 0x60, 0x09, 0x55, 0x00];
+            let mk = |x: u8| { let mut c = prefix.clone(); c.push(x); c.extend(tail); c };
+            cmp(format!("unassigned byte {b:#04x}"), mk(b), mk(0xfe));
+        }
+    }
+    // a PUSHn cut short by the end of the code, with 0 .. n-1 of its bytes present (taken from 0x5b / 0x55 / 0x00 so that
+    // a mis-decoded tail would do something visible), reached by straight-line execution and by a jump over dead code
+    for n in 1..=32usize {
+        for present in 0..n {
+            for fill in [0x5bu8, 0x55, 0x00] {
+                for prefix in [vec![0x60u8, 0x01, 0x50], vec![0x60, 0x04, 0x56, 0x00, 0x5b]] {
+                    let mut code = prefix.clone();
+                    let mut reference = prefix.clone();
+                    code.push(0x5f + n as u8);
+                    code.extend(std::iter::repeat(fill).take(present));
+                    reference.extend(std::iter::repeat(0xfe).take(present + 1));
+                    cmp(format!("PUSH{n} with {present} of its bytes"), code, reference);
+                }
+            }
+        }
+    }
+    println!("CASES c10_exec_as_invalid {cases}");
+}
